@@ -294,6 +294,13 @@ impl StepExec {
         }
     }
 
+    /// Wait (on the runtime, real time) until activity `act` has been woken, e.g. by a
+    /// runtime-spawned helper task the model knows about. Returns false on watchdog expiry.
+    pub async fn wait_for_wake(&self, act: usize) -> bool {
+        let flag = self.acts[act].flag.clone();
+        tokio::time::timeout(self.watchdog, WaitWoken(flag)).await.is_ok()
+    }
+
     /// Run until quiescence or `max_steps`. Returns the number of steps taken.
     pub async fn run_to_quiescence(&mut self, max_steps: u64) -> Result<u64, Stall> {
         let mut n = 0;
